@@ -207,7 +207,7 @@ PROPS.update({
         rule="module trees x valid insertion orders x stage counts; distinct = distinct program hash; non-trivial = insertion order differs "
              "from pre-order and some module declares >= 2 stages",
         fault_probes=["invalid_node_rejected"],
-        expected_probes=["invalid_node_rejected", "insertion_order_differs_from_preorder", "tree_query"],
+        expected_probes=["invalid_node_rejected", "insertion_order_differs_from_preorder", "tree_query", "inner_application_fails_at_the_end"],
         assumptions=["sampled, not exhaustive"]),
     "C14": net_prop(
         level_text="Seeded exploration: processing stacks of 0..6 scripted elements (pass / modify / consume, optionally sending from a hook) "
